@@ -511,6 +511,23 @@ func runCopy(mode string, seed int64, tier string, sc *Script) map[string]any {
 			caseNo++
 		}
 	}
+	// C04: a media type of the caller's own as non-leaf node (custom FindSuccessors reading
+	// through the fetcher it is given): such nodes too are fetched from the source once
+	if mode == "C04" {
+		for vi := 0; vi < 6; vi++ {
+			u := NewUniverse()
+			var leaves []int
+			for k := 0; k < 3+vi%3; k++ {
+				leaves = append(leaves, u.AddBlob(ocispec.MediaTypeImageLayer, []byte(fmt.Sprintf("bundle-leaf-%d-%d", vi, k))).ID)
+			}
+			inner := u.AddBundle(leaves[:2], fmt.Sprintf("inner-%d", vi))
+			other := u.AddBundle(leaves[1:], fmt.Sprintf("other-%d", vi))
+			root := u.AddBundle([]int{inner.ID, other.ID, leaves[0]}, fmt.Sprintf("root-%d", vi))
+			cc := copyCase{u: u, roots: []int{root.ID}, dst: []dstKind{"memory", "oci"}[vi%2], conc: 1 + vi%3, useCopy: vi >= 3, label: "custom-non-leaf-type"}
+			exec(cc, caseNo)
+			caseNo++
+		}
+	}
 	// C04: Copy (by reference) of a root that the destination already holds, with the
 	// OnCopySkipped callback failing for that root: the copy ends with that error, for every
 	// kind of destination
